@@ -185,6 +185,30 @@ def nat_lookahead(h):
             got = h.run(lambda: Flow(SizedLazy(), set_type('a', type='integer'), sink).process())
             h.check(got[0] == 'ok' and worst[0] <= BOUND and delivered[0] == N, 'lookahead:sized-lazy-source', N, 'look-ahead <= %d' % BOUND,
                     (got[0], worst[0], delivered[0]))
+        # leftover state: the same re-iterable source (and the same Flow object) used again after a run that FAILED on a value
+        # deep in the stream (it does not fit the type inferred from the sample): the next run -- whether it fails again or not --
+        # still streams
+        for N in (1500, 6000):
+            pulled, delivered, worst = [0], [0], [0]
+
+            class Reiterable:
+                def __iter__(self):
+                    for i in range(N):
+                        pulled[0] += 1
+                        yield {'a': i, 'b': (i if i != N - 20 else 0.5)}
+
+            def sink(rows):
+                for r in rows:
+                    delivered[0] += 1
+                    worst[0] = max(worst[0], pulled[0] - delivered[0])
+                    yield r
+            src = Reiterable()
+            f = Flow(src, sink)
+            for attempt, flow in ((1, f), (2, f), (3, Flow(src, sink))):
+                pulled[0], delivered[0], worst[0] = 0, 0, 0
+                got = h.run(lambda: flow.process())
+                h.check(worst[0] <= BOUND, 'lookahead:after-a-failed-run', (N, 'run %d' % attempt, got[0]), 'look-ahead <= %d' % BOUND,
+                        (worst[0], delivered[0], pulled[0]))
         # histories / options the random stages do not reach
         from dataflows import load
         for case in ('load-limit_rows', 'checkpoint-after-an-interrupted-run', 'load-pair'):
